@@ -6,10 +6,11 @@ from .val import *  # noqa
 from . import val as V
 
 
-def run_paths(ctx, key, make_args, hooks=None, contracts=None, max_paths=256):
+def run_paths(ctx, key, make_args, hooks=None, contracts=None, max_paths=256, dict_universe=None):
     fref = S.get_function(key)
     ctx.use_function(fref)
     e = E.Evaluator(hooks=hooks, contracts=contracts, max_paths=max_paths)
+    e.dict_universe = dict_universe
     paths = e.run_all(fref, make_args)
     for p in paths:
         ctx.inlined |= p.inlined
